@@ -673,7 +673,10 @@ Definition exec (fuel : nat) (n : node) : xres :=
   let K := nkids n in
   if root_ready K then
     let W := wiring_of K in
-    match starts W (mkSt (vals_in K) (vals_out K) (rcvd_of K) [] [] []) (nstart n) with
+    (* Composite._on_run, "start fresh" branch (since /repo 13dd065): every child's all-of trigger is
+       reset before the starting nodes run, so no received signal survives from an earlier run or
+       from the pickled image *)
+    match starts W (mkSt (vals_in K) (vals_out K) [] [] [] []) (nstart n) with
     | inl st => loop fuel W st
     | inr XNotReady => XStart
     | inr XUnsupported => XUns
